@@ -242,7 +242,8 @@ class ScoOperationsRegistry(AbstractScoOperationsRegistry):
             )
             return InvocationState.FAILED
 
-        return InvocationState.FINISHED
+        # the response must carry the same final state as the report (Fail / FinMod / Cnclld / CnclldMan of the handler)
+        return execute_result.invocation_state
 
     def start_worker(self):
         """Start worker thread."""
